@@ -166,6 +166,16 @@ CHECKS = {
             "labelled 0..count-1 whose links are of the requested type with both ends members (and every vertex v1 "
             "of a link under ensurelink). A finite seed sweep with the real random module checks reproducibility.",
             "Any use of another random primitive is a harness error; counts above 4 are not exhaustive."),
+    "C05": (H, "DESIGN.md section 4 C05",
+            "explicit-state BFS to fixpoint over interleavings of mutators, cache-warming queries, flag toggles and pickle round trips (memo contents in the state); differential state invariant; fresh-interpreter leg",
+            "model_checking",
+            "The neighbour memo of every vertex (including stale contents), the caching flag and the registration bits "
+            "are part of the canonical state; ops are every mutator from either object, warm(v) for every vertex, flag "
+            "on/off and a pickle round trip. In every reached state, on a throw-away copy, every neighbour key at every "
+            "vertex and the three traversals and searches from every start must answer the same with the flag as it "
+            "is and with the flag forced off. Every reached state is also dumped with nrpickler and loaded in two "
+            "fresh interpreters (flag off / on) that run the same battery.",
+            "Bounded pools (2-3 vertices, <=2-3 links); filters are pure; asymmetric structures (C01) are not expanded."),
 }
 
 
